@@ -316,14 +316,14 @@ theorem target_facts {cfg : Cfg} {d : Dir} {act : Active} {a : Abs} {r : RotCfg}
       | cur => exact absurd hb id
       | ext n => exact absurd hb id
 
-/-- `mountNext` when it rotates (any `append`): invariant, birth-time bookkeeping, and the old
+/-- the rotation proper (any `append`): invariant, birth-time bookkeeping, and the old
     current file moved to a name that did not exist -/
-theorem mountNext_rot2 (s : St) (act : Active) (a : Abs) (r : RotCfg) (force : Bool) (now : Nat)
+theorem mountNextCore_rot2 (s : St) (act : Active) (a : Abs) (r : RotCfg) (force : Bool) (now : Nat)
     (hr : s.cfg.rot = some r) (hcl : r.cleanup = none)
     (hnm : r.naming = .numbers ∨ r.naming = .timestamps)
     (hi : InvAct s.cfg s.dir act a) (hst : act.stamp ≤ now)
     (h : (force || rotationNecessary r act now) = true) :
-    ∃ s' act', mountNext s act r force now noFaults = (s', act', false) ∧ s'.cfg = s.cfg ∧
+    ∃ s' act', mountNextCore s act r force now noFaults = (s', act', false) ∧ s'.cfg = s.cfg ∧
       InvAct s.cfg s'.dir act' (a.rotate now) ∧ Ext s.cfg s'.dir act' ∧ act'.stamp ≤ now ∧
       Moved s.dir s'.dir := by
   obtain ⟨f, hf, hdata⟩ := hi.file
@@ -347,7 +347,7 @@ theorem mountNext_rot2 (s : St) (act : Active) (a : Abs) (r : RotCfg) (force : B
   rcases hnm with hn | hn
   · have ht : targetOf r s.dir act = .num act.idx := by simp [targetOf, hn]
     rw [ht] at hren hg3 hasc hmem hmv3 hb
-    obtain ⟨s', he, hc', hd'⟩ := mountNext_numbers s act r force now hn hcl h d1' hren hh hg1
+    obtain ⟨s', he, hc', hd'⟩ := mountNextCore_numbers s act r force now hn hcl h d1' hren hh hg1
     obtain ⟨hb1, hb2⟩ := hb (act.idx + 1) act.stamp (fun _ => Nat.lt_succ_self _)
       (fun _ => Nat.le_refl _)
     refine ⟨s', _, he, hc', ?_, ?_, hst, ?_⟩
@@ -368,7 +368,7 @@ theorem mountNext_rot2 (s : St) (act : Active) (a : Abs) (r : RotCfg) (force : B
       exact hmv3
   · have ht : targetOf r s.dir act = collisionFree s.dir act.stamp := by simp [targetOf, hn]
     rw [ht] at hren hg3 hasc hmem hmv3 hb
-    obtain ⟨s', he, hc', hd'⟩ := mountNext_timestamps s act r force now hn hcl h d1' hren hh hg1
+    obtain ⟨s', he, hc', hd'⟩ := mountNextCore_timestamps s act r force now hn hcl h d1' hren hh hg1
     obtain ⟨hb1, hb2⟩ := hb act.idx now (fun _ => by rw [hn] at *; contradiction) (fun _ => hst)
     refine ⟨s', _, he, hc', ?_, ?_, Nat.le_refl _, ?_⟩
     · rw [hd']
@@ -383,6 +383,21 @@ theorem mountNext_rot2 (s : St) (act : Active) (a : Abs) (r : RotCfg) (force : B
         exact (hcr _ hg3).symm
     · rw [hd']
       exact hmv3
+
+/-- `mountNext` when it rotates (any `append`): invariant, birth-time bookkeeping, and the old
+    current file moved to a name that did not exist -/
+theorem mountNext_rot2 (s : St) (act : Active) (a : Abs) (r : RotCfg) (force : Bool) (now : Nat)
+    (hr : s.cfg.rot = some r) (hcl : r.cleanup = none)
+    (hnm : r.naming = .numbers ∨ r.naming = .timestamps)
+    (hi : InvAct s.cfg s.dir act a) (hst : act.stamp ≤ now)
+    (h : (force || rotationNecessary r act now) = true) :
+    ∃ s' act', mountNext s act r force now noFaults = (s', act', false) ∧ s'.cfg = s.cfg ∧
+      InvAct s.cfg s'.dir act' (a.rotate now) ∧ Ext s.cfg s'.dir act' ∧ act'.stamp ≤ now ∧
+      Moved s.dir s'.dir := by
+  rw [mountNext_due s act r force now noFaults h]
+  obtain ⟨s', act', h1, h2, h3, h4, h5, h6⟩ :=
+    mountNextCore_rot2 (flushAct s act).1 (flushAct s act).2 a r true now hr hcl hnm hi.flush hst rfl
+  exact ⟨s', act', h1, h2, h3, h4, h5, (same_append s.dir act.handle act.pending).then_moved h6⟩
 
 /-- the invariant for another writer state on the same directory -/
 theorem InvAct.change {cfg : Cfg} {d : Dir} {act : Active} {a : Abs} (h : InvAct cfg d act a)
